@@ -67,8 +67,9 @@ def run(rep, tier):
                     'extraction + runner/main.ml', 'vlib/stimtext.py', 'harness/c02.cc',
                     'reference encoders executed from doc/result_formats.md']
     rep.assumptions += ['RNG quality (mt19937_64) is tested statistically at 7 sigma, not proved',
-                        'surjectivity of frame randomisation onto the specification\'s affine space is checked per circuit '
-                        '(distinct-record count and uniformity), with the crux lemma post_rnd_other_outcome proved']
+                        'the frame sampler reports exactly the legal records (FrameComplete.frame_exact) for Clifford steps and '
+                        'Hermitian measurements of any number; with resets and noise, surjectivity onto the specification\'s affine '
+                        'space is checked per circuit (distinct-record count and uniformity)']
     rng = rep.rng()
 
     # ---------- A. validity of every bulk shot (noiseless and noisy circuits)
